@@ -191,9 +191,9 @@ Lemma vdiv_len (g w : Rvec) n : length g = n -> length w = n -> length (vdiv g w
 Proof. intros; unfold vdiv; apply vmap2_len; assumption. Qed.
 
 Section Variants.
-Variable rzv mav : bool.     (* the measured variants of FModel: the theorem holds for each of them *)
-Notation fgradR := (fgrad sqrt rzv mav).
-Notation fokR := (fok rzv mav).
+Variable mav : bool.     (* the measured variant of FModel: the theorem holds for both values *)
+Notation fgradR := (fgrad sqrt mav).
+Notation fokR := (fok mav).
 
 (* ---------- regular points ---------- *)
 Fixpoint fregular (w : Rvec) (f : fexprR) (x : Rvec) : Prop :=
@@ -215,7 +215,7 @@ Lemma fgrad_len (f : fexprR) : forall w x, fwt f = true -> length w = fdim f -> 
 Proof.
   induction f as [n c|n|n|n|n c|f IH s|f IH s|f IHf g IHg|f IH c|f IH t|f IH a u c|f IHf g IHg|f IHf g IHg|f IH v|f IH w' n rows];
     intros w x Hw Hwl Hx; cbn [fwt fdim fgrad] in *.
-  - destruct rzv; [apply vdiv_len; [rewrite rgrad_len; exact Hx|exact Hwl]|rewrite rgrad_len; exact Hx].
+  - apply vdiv_len; [rewrite rgrad_len; exact Hx|exact Hwl].
   - rewrite vscal_len; exact Hx.
   - destruct (_ =? _)%num; [rewrite vconst_len|rewrite map_length]; exact Hx.
   - rewrite map_length; exact Hx.
@@ -248,13 +248,9 @@ Theorem fgrad_sound (f : fexprR) : forall w x,
 Proof.
   induction f as [n c|n|n|n|n c|f IH s|f IH s|f IHf g IHg|f IH c|f IH t|f IH a u c|f IHf g IHg|f IHf g IHg|f IH v|f IH w' n rows];
     intros w x Hw Hok Hwl Hx Hreg; cbn [fwt fok fdim feval fgrad fregular] in *.
-  - (* Rosenbrock: unweighted space, or repaired gradient (partials / weights) *)
+  - (* Rosenbrock: gradient = partial derivatives / weights *)
     intros g d Hc. pose proof Hc as (_ & Hd & _).
-    destruct rzv; cbn [andb orb] in Hok.
-    + assert (Hnz : all_nz w = true).
-      { apply orb_prop in Hok as [E|E]; [exact E|apply all_one_all_nz; exact E]. }
-      rewrite (wdot_vdiv_nz w d _ Hnz) by (rewrite rgrad_len; lia). apply (rosen_sdiff c n); exact Hc.
-    + rewrite (all_one_wdot w d _ Hok) by lia. apply (rosen_sdiff c n); exact Hc.
+    rewrite (wdot_vdiv_nz w d _ Hok) by (rewrite rgrad_len; lia). apply (rosen_sdiff c n); exact Hc.
   - (* L2NormSquared *)
     intros g d Hc.
     pose proof (dpl_dot2 _ _ _ _ _ _ _ (curve_mul_const _ _ _ _ w Hc Hwl) Hc) as H2.
@@ -391,9 +387,9 @@ Definition ex_f : fexprR :=
         (FScalarSum (FRScal (FTransl (FL1 2) [5; 5]) 2) 1).
 Definition ex_g : fexprR := FSum (FCompM (FL2Sq 1) [1] 2 [[1; 2]]) (FL1 2).
 Lemma ex_f_premises :
-  (fwt ex_f = true /\ fok false false [2; 3] ex_f = true /\ length [2; 3] = fdim ex_f /\ length [1; 2] = fdim ex_f /\
+  (fwt ex_f = true /\ fok false [2; 3] ex_f = true /\ length [2; 3] = fdim ex_f /\ length [1; 2] = fdim ex_f /\
    fregular [2; 3] ex_f [1; 2]) /\
-  (fwt ex_g = true /\ fok false false [1; 1] ex_g = true /\ fregular [1; 1] ex_g [1; 2]).
+  (fwt ex_g = true /\ fok false [1; 1] ex_g = true /\ fregular [1; 1] ex_g [1; 2]).
 Proof.
   cbn. numR.
   assert (E1 : Reqb 1 1 = true) by (destruct (Reqb_spec 1 1); [reflexivity|lra]).
@@ -413,7 +409,7 @@ Qed.
 Definition bad_f : fexprR := FCompM (FL2Sq 1) [1] 1 [[1]].
 Lemma fgrad_weighted_comp_refuted :
   fwt bad_f = true /\ length [2] = fdim bad_f /\ fregular [2] bad_f [1] /\
-  ~ sdiff (fdim bad_f) (feval sqrt [2] bad_f) [1] (fun d => wdot [2] d (fgrad sqrt false false [2] bad_f [1])).
+  ~ sdiff (fdim bad_f) (feval sqrt [2] bad_f) [1] (fun d => wdot [2] d (fgrad sqrt false [2] bad_f [1])).
 Proof.
   repeat split; try reflexivity.
   intros H.
@@ -424,30 +420,5 @@ Proof.
     - apply (dpl_eq _ _ ((0 + 1) * (1 + 0) + (1 + 0) * (0 + 1))); [ring|].
       apply (derivable_pt_lim_mult (fun t => 1 + t) (fun t => 1 + t));
         (apply derivable_pt_lim_plus; [apply derivable_pt_lim_const|apply derivable_pt_lim_id]). }
-  pose proof (uniqueness_limite _ _ _ _ H1 H2) as E. cbn in E. numR. lra.
-Qed.
-
-(* the same for RosenbrockFunctional on a weighted space (finding RosenbrockFunctional-weighted-space):
-   on rn(2, weighting=2) at x = (0, 0), d = (1, 0): f(x + t d) = c t^4 + (t - 1)^2 + ..., derivative -2,
-   the code answers <d, gradient>_w = 2 * (-2) = -4. *)
-Definition bad_r : fexprR := FRosen 2 1.
-Lemma rosen_weighted_refuted :
-  fwt bad_r = true /\ length [2; 2] = fdim bad_r /\ fregular [2; 2] bad_r [0; 0] /\
-  ~ sdiff (fdim bad_r) (feval sqrt [2; 2] bad_r) [0; 0] (fun d => wdot [2; 2] d (fgrad sqrt false false [2; 2] bad_r [0; 0])).
-Proof.
-  repeat split; try reflexivity.
-  intros H.
-  pose proof (H (line [0; 0] [1; 0]) [1; 0] (curve_line 2 [0; 0] [1; 0] eq_refl eq_refl)) as H1.
-  assert (H2 : derivable_pt_lim (fun t => feval sqrt [2; 2] bad_r (line [0; 0] [1; 0] t)) 0 (-2)).
-  { apply (dpl_ext (fun t => (t * t) * (t * t) + (t - 1) * (t - 1))).
-    - intros t. cbn. numR. ring.
-    - apply (dpl_eq _ _ (((1 * 0 + 0 * 1) * (0 * 0) + (0 * 0) * (1 * 0 + 0 * 1)) + ((1 - 0) * (0 - 1) + (0 - 1) * (1 - 0)))); [ring|].
-      assert (Hsq : derivable_pt_lim (fun t => t * t) 0 (1 * 0 + 0 * 1))
-        by (apply (derivable_pt_lim_mult (fun t => t) (fun t => t)); apply derivable_pt_lim_id).
-      assert (Hm1 : derivable_pt_lim (fun t => t - 1) 0 (1 - 0))
-        by (apply (derivable_pt_lim_minus (fun t => t) (fun _ => 1)); [apply derivable_pt_lim_id|apply derivable_pt_lim_const]).
-      apply derivable_pt_lim_plus.
-      + apply (derivable_pt_lim_mult (fun t => t * t) (fun t => t * t)); exact Hsq.
-      + apply (derivable_pt_lim_mult (fun t => t - 1) (fun t => t - 1)); exact Hm1. }
   pose proof (uniqueness_limite _ _ _ _ H1 H2) as E. cbn in E. numR. lra.
 Qed.
